@@ -94,6 +94,24 @@ func (o *c09) Step(r *StepRec) []Violation {
 	for _, id := range r.CtxIDs {
 		created[id] = true
 	}
+	// what the owning module did to its context from inside a response callback of this step
+	reacted := map[string]string{}
+	for _, cb := range r.CBs {
+		if cb.React != "" && cb.ReactOK {
+			reacted[cb.Ctx] = cb.React
+			o.hit("module_" + cb.React + "_in_response_callback")
+			// the keeper accepted it: it must hold when the step is over (a killed context may already be gone)
+			if p1, ok := post.Ctxs[cb.Ctx]; ok {
+				want := stCompleted
+				if cb.React == "pause" {
+					want = stPaused
+				}
+				if p1.State != want {
+					o.fail("c09:react_lost:"+cb.React, "the module's %s of context %s inside its response callback succeeded, but the context is %s after %s", cb.React, short(cb.Ctx), stateName(p1.State), a.Kind)
+				}
+			}
+		}
+	}
 	ids := map[string]bool{}
 	for id := range pre.Ctxs {
 		ids[id] = true
@@ -138,6 +156,9 @@ func (o *c09) Step(r *StepRec) []Violation {
 		if p0.State != p1.State {
 			legal := false
 			switch {
+			case reacted[id] == "kill" && p0.State == stRunning && p1.State == stCompleted,
+				reacted[id] == "pause" && p0.State == stRunning && p1.State == stPaused:
+				legal = p0.Repeated && p0.ModuleName != "" // its module killed / paused it from inside the response callback
 			case a.Kind == KRestart && p1.State == stPaused:
 				legal = true // a zero-height restart leaves every context paused
 			case p0.State == stRunning && p1.State == stPaused:
@@ -631,7 +652,8 @@ func (o *c12) Step(r *StepRec) []Violation {
 				t.completed = true
 			}
 		}
-		if inPre && a.Kind == KEndBlock && p0.State == stRunning && p1.State == stPaused && p1.ModuleName != "" {
+		if inPre && a.Kind == KEndBlock && p0.State == stRunning && p1.State == stPaused && p1.ModuleName != "" &&
+			reactionIn(r, cid) != "pause" { // paused for funds, not by its own module from inside the response callback
 			wantCB = append(wantCB, cbKey("state", cid, nil, false))
 			o.hit("module_state_callback")
 		}
